@@ -144,11 +144,22 @@ func (w *World) forge(ctx context.Context, toks []string) {
 		// a writer's id, the attacker's key and signatures
 		ident = &idp.Identity{ID: victim.identity.ID, PublicKey: att.identity.PublicKey, Signatures: att.identity.Signatures,
 			Type: att.identity.Type, Provider: &signerProvider{att.identity.Provider, att.identity}}
+	case "selfsigned":
+		// a writer's id, the attacker's key, the id signed with the attacker's key, and a well-formed
+		// signature by the wrong key where the key named by the id should have signed the attacker's key
+		sid, err := att.identity.Provider.Sign(ctx, att.identity, []byte(victim.identity.ID))
+		if err != nil {
+			w.printf("forged %d err %s\n", a, strings.ReplaceAll(err.Error(), "\n", " "))
+			return
+		}
+		ident = &idp.Identity{ID: victim.identity.ID, PublicKey: att.identity.PublicKey,
+			Signatures: &idp.IdentitySignature{ID: sid, PublicKey: att.identity.Signatures.PublicKey},
+			Type:       att.identity.Type, Provider: &signerProvider{att.identity.Provider, att.identity}}
 	case "othertype":
 		// a writer's id, the attacker's key, junk signatures, and an identity type no provider checks
 		ident = &idp.Identity{ID: victim.identity.ID, PublicKey: att.identity.PublicKey,
 			Signatures: &idp.IdentitySignature{ID: []byte("junk"), PublicKey: []byte("junk")},
-			Type: "other", Provider: &signerProvider{att.identity.Provider, att.identity}}
+			Type:       "other", Provider: &signerProvider{att.identity.Provider, att.identity}}
 	case "foreignkey":
 		// the writer's whole identity block (so Key = the writer's key) but signed by the attacker
 		ident = &idp.Identity{ID: victim.identity.ID, PublicKey: victim.identity.PublicKey, Signatures: victim.identity.Signatures,
@@ -162,7 +173,7 @@ func (w *World) forge(ctx context.Context, toks []string) {
 	e := ie.(*entry.Entry)
 	rehash := true
 	switch recipe {
-	case "honest", "own", "copiedid", "foreignkey", "otherlog", "othertype":
+	case "honest", "own", "copiedid", "foreignkey", "otherlog", "othertype", "selfsigned":
 	case "copiedblock":
 		// entry signed with the attacker's key (Key = attacker) but carrying the writer's identity block
 		e.SetIdentity(victim.identity.Filtered())
@@ -204,6 +215,11 @@ func (w *World) forge(ctx context.Context, toks []string) {
 		f := *e.GetIdentity()
 		f.Signatures = victim.identity.Signatures
 		e.SetIdentity(&f)
+	case "mut-identsigpk":
+		// only the outer signature of the identity block replaced by another well-formed one
+		f := *e.GetIdentity()
+		f.Signatures = &idp.IdentitySignature{ID: f.Signatures.ID, PublicKey: victim.identity.Signatures.PublicKey}
+		e.SetIdentity(&f)
 	case "mut-identtype":
 		f := *e.GetIdentity()
 		f.Type = "other"
@@ -227,7 +243,7 @@ func (w *World) forge(ctx context.Context, toks []string) {
 	default:
 		panic("unknown recipe " + recipe)
 	}
-	if rehash && recipe != "honest" && recipe != "own" && recipe != "copiedid" && recipe != "foreignkey" && recipe != "otherlog" && recipe != "othertype" {
+	if rehash && recipe != "honest" && recipe != "own" && recipe != "copiedid" && recipe != "foreignkey" && recipe != "otherlog" && recipe != "othertype" && recipe != "selfsigned" {
 		h, err := entry.ToMultihashWithIO(ctx, e, att.api, nil, io)
 		if err != nil {
 			w.printf("forged %d err %s\n", a, strings.ReplaceAll(err.Error(), "\n", " "))
